@@ -16,7 +16,7 @@ RULE = ('generated consistent / weakly consistent bases x random fact lists (str
         'worlds get the top rank, an unsatisfiable combination raises ValueError carrying the diagnostics line, '
         'and the diagnostics stored in metadata equal the reference flags. Non-trivial = base with >= 2 layers, a '
         'non-empty infinity layer, or facts; distinct by hash(base, facts, extended).')
-ASSUMPTIONS = ['worlds enumerated: <= 5 atoms; every 250th (quick) / 90th (thorough) case has 11-12 atoms and is judged relationally (acceptance = System Z operator)']
+ASSUMPTIONS = ['worlds enumerated: <= 5 atoms; every 250th (quick) / 90th (thorough) case has 11 atoms and is judged relationally (acceptance = System Z operator)']
 HARD_TIMEOUT = 400
 SOFT_TIMEOUT = 300
 TRUSTED = []
@@ -42,9 +42,9 @@ def run_large(case):
     from .. import corpus
     rng = gen.rng_for(case['seed'], ID, case['idx'])
     res = {'evals': 0, 'nontrivial': [], 'violations': [], 'inconclusive': [], 'counters': {}}
-    for _ in range(40):
+    for _ in range(80):
         sig, conds = corpus.union_base(rng, parts=3, want='strong')
-        if 11 <= len(sig) <= 12:
+        if len(sig) == 11:
             break
     else:
         return res
@@ -57,7 +57,6 @@ def run_large(case):
     qs.append((B, fml.And(A, B)))                               # A entails B: A & !B has no model
     x = fml.V(rng.choice(sig))
     qs.append((fml.Or(x, fml.Not(x)), fml.And(A, fml.Not(B))))  # consequent valid, antecedent exceptional
-    qs.append(corpus.derived_queries(rng, sig, conds, 1)[0])
     op = impl.results(impl.ask(impl.mk_bb(sig, conds), 'system-z', '', impl.mk_queries(qs)))
     for qi, (B, A) in enumerate(qs):
         if not fml.tt(A, sig):
